@@ -131,6 +131,10 @@ def build_sessions(gens, exact=True):
         # other legal Python number types; a DEBUG log level (small games only: it logs every state of every sweep)
         s["numtypes"] = s["tid"] % 6 == 4
         s["debuglog"] = s["tid"] % 7 == 5 and d["fam"] not in ("slow", "tiny", "slowrew", "bigrew")
+        # astronomically large rewards (every reward times 2**70; the hist/edit/perm scripts compare
+        # whole results, which is unaffected, but are left alone)
+        if s["tid"] % 9 == 8 and d["fam"] in ("stop", "dead", "ties", "diag", "samerow", "nonabs", "forced", "degen", "bigrew"):
+            s["rmulpow"] = 70
         sessions.append(s)
     return sessions
 
